@@ -54,18 +54,24 @@ Print Assumptions C08_resolution_spec_partial.
 
 (* chunk sizes are powers of two (exponents >= 0) holding target^3 voxels up
    to a factor of two *)
-Theorem C08_chunks_pow2_and_volume : forall d t l e, 0 <= t ->
+Theorem C08_chunks_pow2_and_volume : forall d t l e, 0 <= t -> 0 <= l ->
   chunk_exponents d t l = Ok e ->
   (forall a, 0 <= get3 a e) /\ Z.abs (sum3 e - 3 * t) <= 1.
 Proof. exact chunk_volume. Qed.
 Print Assumptions C08_chunks_pow2_and_volume.
 
-(* of the three internal assertions only the first can fail; the division by
-   the number of non-zero anisotropy factors is never a division by zero *)
-Theorem C08_only_first_assertion_can_fail : forall d t l, 0 <= t ->
-  (exists e, chunk_exponents d t l = Ok e) \/ chunk_exponents d t l = Crash AssertionError.
-Proof. exact chunk_exponents_outcomes. Qed.
-Print Assumptions C08_only_first_assertion_can_fail.
+(* since /repo 1758f7a NO internal assertion of downscale_info can fail (and the
+   division by the number of non-zero anisotropy factors is never a division by
+   zero); the integer core accepts every description with positive sizes *)
+Theorem C08_no_assertion_can_fail : forall d t l, 0 <= t ->
+  exists e, chunk_exponents d t l = Ok e.
+Proof. exact no_assertion_can_fail. Qed.
+Print Assumptions C08_no_assertion_can_fail.
+
+Theorem C08_scales_core_total : forall full d t ms, 0 <= t -> (forall a, 0 < get3 a full) ->
+  exists l, scales_core full d t ms = Ok l.
+Proof. exact scales_core_total. Qed.
+Print Assumptions C08_scales_core_total.
 
 (* consecutive levels differ by a factor 1 or 2 per axis, and the sizes are
    accepted by compute_dyadic_downscaling (which infers the factor from size
@@ -151,9 +157,13 @@ Theorem C08_last_fits_refuted :
 Proof. exact last_fits_refuted. Qed.
 Print Assumptions C08_last_fits_refuted.
 
-(* keys: pairwise distinct whenever the length formatted at level l is exactly
-   2^l times the length formatted at level 0 (executable keys_guard); refuted
-   by 1.2 : 1.5 : 0.8 nm with target 16 (keys 1nm, 1nm, 2nm) *)
+(* keys (since /repo b3f6345: format_length(finest * 2^level)): pairwise
+   distinct for every generated scale list, under the executable keys_guard
+   which now only states that the binary64 products (finest * 2^l) * unit factor
+   are exactly 2^l times the level-0 product, i.e. that no product leaves the
+   normal range of binary64 (the harness checks keys_guard = true on every
+   generated description).  Not proved: that SFmul by a power of two is exact
+   in range, which would remove the guard. *)
 Theorem C08_keys_distinct_on_guard : forall full res target ms scales,
   gen_scales full res target ms = Ok scales ->
   keys_guard full res target ms = true ->
@@ -161,49 +171,32 @@ Theorem C08_keys_distinct_on_guard : forall full res target ms scales,
 Proof. exact keys_distinct_on_guard. Qed.
 Print Assumptions C08_keys_distinct_on_guard.
 
-Theorem C08_keys_distinct_refuted :
-  exists full res target scales,
-    gen_scales full res target 0 = Ok scales /\ keys_guard full res target 0 = false /\
-    ~ NoDup (map so_key scales).
-Proof. exact keys_distinct_refuted. Qed.
-Print Assumptions C08_keys_distinct_refuted.
+Theorem C08_generated_scales_positive : forall full res target ms scales s,
+  gen_scales full res target ms = Ok scales -> In s scales ->
+  (forall a, 0 < get3 a (so_size s)) /\ (forall a, 0 < get3 a (so_chunks s)).
+Proof. exact gen_scales_scale_pos. Qed.
+Print Assumptions C08_generated_scales_positive.
 
-(* internal assertion: cannot fail when the total anisotropy of the full
-   resolution is at most 3 log2(target) octaves; fails for delays (0, 10, 11)
-   with target 2.  (no_assert_iff - the exact closed form of the failing
-   region - is not proved; the executable no_assert_level is its definition.) *)
-Theorem C08_no_assert_on_guard : forall d t l, 0 <= t -> 0 <= l ->
-  sum3 (aniso0 d 0) <= 3 * t -> exists e, chunk_exponents d t l = Ok e.
-Proof. exact no_assert_on_guard. Qed.
-Print Assumptions C08_no_assert_on_guard.
-
-Theorem C08_assert_refuted :
-  sum3 (aniso0 (0, 10, 11) 0) > 3 * 1 /\ chunk_exponents (0, 10, 11) 1 0 = Crash AssertionError.
-Proof. exact assert_level_refuted. Qed.
-Print Assumptions C08_assert_refuted.
-
-Theorem C08_generator_assert_refuted :
-  gen_scales (1000000, 1000, 1000) ((1%positive, 0), (1%positive, 10), (1%positive, 11)) 2 0
-  = Crash AssertionError.
-Proof. exact assert_refuted. Qed.
-Print Assumptions C08_generator_assert_refuted.
-
+(* still refused: a positive resolution below half a picometre *)
 Theorem C08_tiny_resolution_refuted :
   gen_scales (1000, 1000, 1000) ((1%positive, 0), (1%positive, 0), (1%positive, -14)) 64 0
   = Crash NotImplementedError.
 Proof. exact tiny_resolution_refuted. Qed.
 Print Assumptions C08_tiny_resolution_refuted.
 
-(* "accepted by the pyramid computation": refuted - generated consecutive chunk
-   sizes can make compute_dyadic_downscaling raise ZeroDivisionError, or
-   (C06_generated_pairs_refuted) write wrong data silently *)
+(* "accepted by the pyramid computation": still refuted - generated consecutive
+   chunk sizes can make compute_dyadic_downscaling raise ZeroDivisionError (old
+   chunk 1 along a halved axis), or fall outside compat, in which case
+   (C06_ok_iff_compat) it raises: a broadcast ValueError or, for the former
+   silent class, the new "Unsupported combination of chunk sizes" ValueError *)
 Theorem C08_accepted_by_pyramid_refuted :
   generated_zero_half (3, 3, 3) ((1%positive, 0), (1%positive, 0), (1%positive, 2)) 1 = true /\
   generated_pair_bad gp_full gp_res 4 = true /\
-  silent_wrong_run ds_stride gp_full gp_res 4 (levels 325) = true.
+  pyramid_outcome_is_value_error ds_stride gp_full gp_res 4 (levels 325) = true.
 Proof.
   exact (conj generated_zero_half_refuted
-              (conj (proj1 generated_pairs_refuted) (proj1 (proj2 generated_pairs_refuted)))).
+              (conj (proj1 former_generated_witness_refused)
+                    (proj1 (proj2 former_generated_witness_refused)))).
 Qed.
 Print Assumptions C08_accepted_by_pyramid_refuted.
 
@@ -216,3 +209,14 @@ Proof. exact keys_guard_example. Qed.
 
 Example C08_example_last_fits : last_fits_guard (1000, 1000, 10) (0, 0, 7) 4 0 = true.
 Proof. exact last_fits_example. Qed.
+
+Example C08_former_key_witness_distinct :
+  keys_guard (100, 100, 100) (fl_1_2, fl_1_5, fl_0_8) 16 0 = true /\
+  match gen_scales (100, 100, 100) (fl_1_2, fl_1_5, fl_0_8) 16 0 with
+  | Ok s => negb (has_dup (map so_key s)) && (3 <=? length s)%nat | _ => false end = true.
+Proof. exact keys_former_witness_distinct. Qed.
+
+Example C08_former_assert_witness_accepted :
+  match gen_scales (1000000, 1000, 1000) ((1%positive, 0), (1%positive, 10), (1%positive, 11)) 2 0 with
+  | Ok s => (1 <=? length s)%nat | _ => false end = true.
+Proof. exact former_assert_witness_accepted. Qed.
